@@ -253,19 +253,20 @@ def validate_trace(module, wd, trace, invariants=(), timeout=1800, heap="4g", vi
 
 
 def validate_runs(module, wd, trace, invariants=(), max_rejections=20, timeout=1800, heap="4g", view=None):
-    """Validates a trace made of runs that each start with a Reset event.  On
-    a rejection the offending run is cut out and the rest is validated again,
-    so that one defect does not leave the remainder unexamined.  Returns
+    """Validates a trace made of runs that each start with a Reset event (which resets the whole
+    state of the trace specification, so runs are independent).  On a rejection the runs before
+    the offending one stand accepted, the offending run is recorded, and validation continues
+    with the runs after it, so that one defect does not leave the remainder unexamined.  Returns
     (runs_accepted, [(run_id, reset_event, first_unmatched_event, line)], states)."""
     with open(trace) as f:
         lines = f.read().splitlines()
+    total = sum(1 for l in lines if l.startswith('{"e":"Reset"'))
     rejected = []
     states = 0
     rounds = 0
     cur = trace
-    while True:
-        if not lines:
-            break
+    unexamined = 0
+    while lines:
         ok, line, r = validate_trace(module, wd, cur, invariants=invariants, timeout=timeout, heap=heap, view=view)
         states += r["states"]
         if ok:
@@ -290,14 +291,15 @@ def validate_runs(module, wd, trace, invariants=(), max_rejections=20, timeout=1
             reset.pop(big, None)
             ev.pop(big, None)
         rejected.append({"run": reset.get("run"), "reset": reset, "event": ev, "line_in_run": line - start})
-        lines = lines[:start] + lines[end:]
+        lines = lines[end:]
         if rounds >= max_rejections:
+            unexamined = sum(1 for l in lines if l.startswith('{"e":"Reset"'))
+            log("[trace] %s: %d rejections, %d runs left unexamined" % (module, rounds, unexamined))
             break
         cur = os.path.join(wd, "trace_retry_%d.ndjson" % rounds)
         with open(cur, "w") as f:
             f.write("\n".join(lines) + ("\n" if lines else ""))
-    total = sum(1 for l in open(trace) if l.startswith('{"e":"Reset"'))
-    return total - len(rejected), rejected, states
+    return total - len(rejected) - unexamined, rejected, states
 
 
 # ---------------------------------------------------------------- findings
@@ -312,7 +314,10 @@ def load_findings():
 class Check:
     """Collects what one run of a check covered and found."""
 
+    current = None            # the check in progress (bin/check finishes it if a tool error interrupts it)
+
     def __init__(self, pid, tier, seed):
+        Check.current = self
         self.pid = pid
         self.tier = tier
         self.seed = seed
